@@ -265,7 +265,10 @@ def model_request(c, o):
         # the margin from the origin is a distance: in ray-parameter units it is divided by |d|
         req["rays"] = [[_qp(r[0]), _qp(r[1]), _q(EPS * o["scale"] / float(np.linalg.norm(r[1])))] for r in c["rays"]]
         req["brays"] = [[_qp(r[0]), _qp(du)] for r, du in zip(c["rays"], o["dunit"])]
-        req["buf"] = _q(1e-5)
+        # the padding / clamp distance is the default of the real function, not a copy of it
+        import inspect
+        from trimesh.ray import ray_triangle
+        req["buf"] = _q(float(inspect.signature(ray_triangle.ray_bounds).parameters["buffer_dist"].default))
     else:
         req["rays"] = [[_qp(p), _qp(d)] for p in c["points"] for d in c["dirs"]]
         req["points"] = [_qp(p) for p in c["points"]]
